@@ -1,3 +1,4 @@
 pub mod wire_eng;
 pub mod transport_eng;
+#[cfg(not(feature = "asyncio"))]
 pub mod vfs_eng;
